@@ -667,7 +667,7 @@ class Engine(StmtMixin):
             for f, ov in fields.items():
                 if f.startswith("$") or (oid, f) in allowed:
                     continue
-                if oid == st.ghost and f in ("suspensions", "futures_awaited", "ssl_retry_calls", "handler_failures", "bad_timeouts", "dg_taken"):
+                if oid == st.ghost and f in ("suspensions", "futures_awaited", "ssl_retry_calls", "handler_failures", "bad_timeouts", "dg_taken", "timeout_scopes"):
                     continue  # event counters (suspension points, awaited futures): every async function may change them; only
                     #           contracts that speak about one list it in `modifies` (then callers see it havocked)
                 nv = st.heap[oid].get(f)
